@@ -127,6 +127,21 @@ Qed.
 Lemma dir_of_child : forall p n, ns n -> dir_of (p ++ slash :: n) = p.
 Proof. intros p n Hn. unfold dir_of. rewrite dir_of_aux_child by exact Hn. reflexivity. Qed.
 
+(* ---- names_file: Path::file_name() is Some ---- *)
+Lemma names_file_snoc : forall cs, names_file cs = true -> exists l n, cs = l ++ [n] /\ n <> dotdot.
+Proof.
+  intros cs H. unfold names_file in H. destruct (rev cs) as [| n r] eqn:E; [discriminate H |].
+  exists (rev r), n. split.
+  - rewrite <- (rev_involutive cs), E. reflexivity.
+  - intros En. subst n. rewrite beqb_refl in H. discriminate H.
+Qed.
+
+Lemma names_file_snoc_intro : forall l n, n <> dotdot -> names_file (l ++ [n]) = true.
+Proof. intros l n H. unfold names_file. rewrite rev_unit. rewrite (beqb_neq _ _ H). reflexivity. Qed.
+
+Lemma save_dict_plan_snoc : forall l n, n <> dotdot -> save_dict_plan (l ++ [n]) = Some (save_plan (l ++ [n])).
+Proof. intros l n H. unfold save_dict_plan. rewrite (names_file_snoc_intro l n H). reflexivity. Qed.
+
 (* ---- the theorems ---- *)
 
 (* HarperAddToFileDict, any document whose URL has a file path with at least one component: the temporary file and the
@@ -150,10 +165,11 @@ Proof.
     rewrite E in Hin. destruct Hin as [E' | [E' | []]]; discriminate E'. }
   assert (Hd : dir_of (m_filedir c ++ slash :: name) = m_filedir c) by (apply dir_of_child; exact Hns).
   split; [| split; [| split]].
-  - unfold file_dict_plan. fold name. rewrite (beqb_neq _ _ Hname). f_equal. unfold join_comps.
+  - unfold file_dict_plan. fold name. rewrite (beqb_neq _ _ Hname). unfold join_comps.
     destruct name as [| c0 rest] eqn:En; [exfalso; apply Hname; reflexivity |].
     rewrite (proj2 (N.eqb_neq c0 slash)) by (apply Hns; left; reflexivity).
     rewrite <- En in *. rewrite (comps_single name Hns Hname Hn1).
+    rewrite (save_dict_plan_snoc _ _ Hnd). f_equal.
     rewrite (save_plan_snoc _ _ Hclean Hnd Htd). rewrite Hm, (render_nonempty _ HF).
     rewrite <- !app_assoc. cbn [app]. reflexivity.
   - unfold path_allowed. replace (m_filedir c ++ slash :: name ++ tmp_suffix) with (tmp_of (m_filedir c ++ slash :: name))
@@ -168,7 +184,7 @@ Qed.
 (* HarperAddToUserDict with a clean absolute userDictPath that names a file: `<user>.tmp` then rename onto `<user>` *)
 Theorem user_dict_save_inside : forall c user,
   comps user <> [] -> clean (comps user) -> m_user c = render (comps user) ->
-  user_dict_plan user = (m_user c ++ tmp_suffix, m_user c ++ tmp_suffix, m_user c) /\
+  user_dict_plan user = Some (m_user c ++ tmp_suffix, m_user c ++ tmp_suffix, m_user c) /\
   path_allowed c (m_user c ++ tmp_suffix) = true /\ path_allowed c (m_user c) = true /\
   rename_allowed c (m_user c ++ tmp_suffix) (m_user c) = true.
 Proof.
@@ -179,7 +195,7 @@ Proof.
   assert (Ht : n ++ tmp_suffix <> dotdot).
   { intros E'. apply (f_equal (@List.length N)) in E'. rewrite app_length in E'. cbn in E'. lia. }
   split; [| split; [| split]].
-  - unfold user_dict_plan. rewrite E, (save_plan_snoc l n Hl Hn Ht).
+  - unfold user_dict_plan. rewrite E, (save_dict_plan_snoc l n Hn). f_equal. rewrite (save_plan_snoc l n Hl Hn Ht).
     rewrite Hm, E, (render_nonempty _ (snoc_nonempty _ l n)), render'_snoc.
     rewrite <- !app_assoc. cbn [app]. reflexivity.
   - unfold path_allowed, tmp_of. rewrite (beqb_refl (m_user c ++ tmp_suffix)). rewrite !orb_true_r. reflexivity.
@@ -233,7 +249,9 @@ Lemma save_plan_examples :
   file_dict_plan (b "/s/fd"%string) None = None /\
   file_dict_plan (b "/s/fd"%string) (Some (b "/"%string)) = None /\
   file_dict_plan (b "/s/fd"%string) (Some (b "/.//"%string)) = None /\
-  user_dict_plan (b "/s//cfg/./user.txt"%string) = (b "/s/cfg/user.txt.tmp"%string, b "/s/cfg/user.txt.tmp"%string, b "/s/cfg/user.txt"%string) /\
+  user_dict_plan (b "/s//cfg/./user.txt"%string) = Some (b "/s/cfg/user.txt.tmp"%string, b "/s/cfg/user.txt.tmp"%string, b "/s/cfg/user.txt"%string) /\
+  user_dict_plan (b "/s/cfg/.."%string) = None /\ user_dict_plan (b "/"%string) = None /\
+  user_dict_plan_old (b "/s/cfg/.."%string) = (b "/s/.tmp"%string, b "/s/.tmp"%string, b "/s"%string) /\
   save_plan (join_comps (b "/s/fd"%string) (b "/home/u/draft.md%"%string)) = (b "/home/u/draft.md%.tmp"%string, b "/home/u/draft.md%.tmp"%string, b "/home/u/draft.md%"%string) /\
   save_plan (join_comps (b "/s/fd"%string) (b "../../x%"%string)) = (b "/x%.tmp"%string, b "/x%.tmp"%string, b "/x%"%string).
 Proof. cbv zeta. vm_compute. repeat split; reflexivity. Qed.
